@@ -102,6 +102,11 @@ LINE_CASES = [
     ('`include "i.svh" `celldefine\n', True), ('`include "i.svh" `include "i.svh"\n', True),
     ('x /* c\n */ `include "i.svh"\n', False), ('"a\\\nb" `include "i.svh"\n', True),
     ('`include "i.svh"\n`include "i.svh"\n', False), ('x;\n`include "i.svh" /* c */\n/* d */ y\n', False),
+    # the token in front of the `include stands in a run of text that BEGINS with line breaks
+    ('`define A 1\nwire x; `include "i.svh"\n', True), ('/* c */\nx `include "i.svh"\n', True), ('\n\nx `include "i.svh"\n', True),
+    ('`celldefine\n\n y `include "i.svh"\n', True), ('`define A 1\n\n\nwire x;\n`include "i.svh"\n', False),
+    ('\n\nx\n`include "i.svh"\n', False), ('\r\n\r\nx `include "i.svh"\r\n', True), ('`define A 1\n\n\nx\n\ny `include "i.svh"\n', True),
+    ('/* c */\n\n"s" `include "i.svh"\n', True), ('`undef A\n  \n\t`A2 `include "i.svh"\n', None),
 ]
 
 
@@ -121,9 +126,15 @@ def check(ctx):
         pc, e = nested_case(r)
         pcs.append(pc); exp.append(e)
     for t, bad_line in LINE_CASES:
+        if bad_line is None:
+            continue
         for pre in ("", "q\n"):
             pcs.append(ppx.PC({"top.sv": pre + t, "i.svh": "inc\n"}, tag="sameline"))
             exp.append(("err", 0, "IncludeLine") if bad_line else ("any",))
+    # the same lines inside an included file
+    for t, bad_line in LINE_CASES[-10:-1]:
+        pcs.append(ppx.PC({"top.sv": 'a\n`include "m.svh"\nz\n', "m.svh": t, "i.svh": "inc\n"}, tag="sameline"))
+        exp.append(("err", 1, "IncludeLine") if bad_line else ("any",))
     # defines in and out, same file twice
     pcs.append(ppx.PC({"top.sv": '`define P 1\n`include "d.svh"\n`Q `ifdef P p_still `endif\n`include "d.svh"\n',
                        "d.svh": "`ifdef P saw_p `endif\n`define Q from_d\n`undef P\n"}, tag="flow"))
